@@ -77,7 +77,7 @@ impl Default for Profile {
             p_world2: 0.3,
             p_prm_requery: 0.0,
             p_so3_signflip: 0.0,
-            p_zero_weight: 0.04,
+            p_zero_weight: 0.07,
             p_odd_start: 0.06,
         }
     }
@@ -142,16 +142,37 @@ fn gen_obstacle(
     };
     let offs = cfg.offsets();
     // candidate structured obstacles on a random component
-    let ci = ch.below(cfg.comps.len());
+    let mut ci = ch.below(cfg.comps.len());
+    // a component of weight 0 is invisible to the metric but not to the checker: put half of
+    // the structured obstacles there
+    let zero_w = cfg.weights.iter().position(|w| *w == 0.0);
+    if let Some(z) = zero_w {
+        if ch.prob(0.5) {
+            ci = z;
+        }
+    }
     let comp = &cfg.comps[ci];
     let w = cfg.weights[ci];
-    let shape = ch.weighted(&[3.0, 2.0, 2.0, 1.0]);
+    let mut shape = ch.weighted(&[3.0, 2.0, 2.0, 1.0]);
+    if zero_w == Some(ci) && shape != 1 && shape != 2 {
+        shape = 1 + ch.below(2);
+    }
+    // width of the obstacle in the component's own units: `thickness` is a distance, so it is
+    // divided by the weight; with weight 0 a share of the component's natural size is used
+    let own = |ch: &mut Ch, natural: f64| -> f64 {
+        if w > 0.0 {
+            thickness / w
+        } else {
+            natural * ch.range(0.05, 0.45)
+        }
+    };
     match (shape, comp) {
-        (1, Comp::RV { dim, bounds }) if w > 0.0 => {
+        (1, Comp::RV { dim, bounds }) => {
             // wall across coordinate k, with a door in another coordinate if dim > 1
             let k = ch.below(*dim);
             let idx = offs[ci] + k;
-            let half = thickness / w / 2.0;
+            let (blo, bhi) = bounds.as_ref().map(|b| b[k]).unwrap_or((-10.0, 10.0));
+            let half = own(ch, bhi - blo) / 2.0;
             let door = if *dim > 1 && ch.prob(0.8) {
                 let j = (k + 1 + ch.below(dim - 1)) % dim;
                 let (lo, hi) = bounds.as_ref().map(|b| b[j]).unwrap_or((-10.0, 10.0));
@@ -168,24 +189,25 @@ fn gen_obstacle(
                 door,
             }
         }
-        (1, Comp::SO2 { .. }) | (2, Comp::SO2 { .. }) if w > 0.0 => Obst::Arc {
+        (1, Comp::SO2 { .. }) | (2, Comp::SO2 { .. }) => Obst::Arc {
             idx: offs[ci],
             c: c[offs[ci]],
-            half: thickness / w / 2.0,
+            half: own(ch, std::f64::consts::PI) / 2.0,
         },
-        (1, Comp::SO3 { .. }) | (2, Comp::SO3 { .. }) if w > 0.0 => {
+        (1, Comp::SO3 { .. }) | (2, Comp::SO3 { .. }) => {
             let o = offs[ci];
             Obst::Cone {
                 off: o,
                 c: [c[o], c[o + 1], c[o + 2], c[o + 3]],
-                r: thickness / w / 2.0,
+                r: own(ch, std::f64::consts::PI) / 2.0,
             }
         }
-        (2, Comp::RV { dim, .. }) if w > 0.0 => {
+        (2, Comp::RV { dim, bounds }) => {
             // box on all coordinates of this component
             let dims = (0..*dim)
                 .map(|k| {
-                    let half = thickness / w / 2.0 * ch.range(0.5, 3.0);
+                    let (blo, bhi) = bounds.as_ref().map(|b| b[k]).unwrap_or((-10.0, 10.0));
+                    let half = own(ch, bhi - blo) / 2.0 * ch.range(0.5, 3.0);
                     (offs[ci] + k, c[offs[ci] + k] - half, c[offs[ci] + k] + half)
                 })
                 .collect();
